@@ -4,10 +4,14 @@ CONSTANTS
   ExplicitByCanonical = TRUE
   KeyByCanonical = TRUE
   LookupCanonical = TRUE
+  IncluderDirResolved = TRUE
+  OptDirsPhysical = TRUE
   MaxIncludes = 4
 INVARIANT Refines
 INVARIANT RefSane
 INVARIANT OnceOnly
 INVARIANT OwnRefines
+INVARIANT ChainRefines
+INVARIANT ChainSane
 CONSTRAINT DumpConstraint
 CHECK_DEADLOCK FALSE
